@@ -221,6 +221,9 @@ class Interp:
         net = self.rig.net
         if net.max_open > 1:
             self.bad("two-connections", f"{net.max_open} connections were open at the same time")
+        if net.finalizer_closed:
+            self.bad("abandoned-not-closed", f"connection {net.finalizer_closed[0]} was dropped by the client without being closed "
+                                             f"(it was closed only by StreamWriter.__del__, i.e. by the garbage collector)")
         if self._send_error is not None:
             self.bad("valid-send-raised", f"send of a valid message raised {self._send_error!r}")
         if self.rig.loop.unhandled:
@@ -377,6 +380,24 @@ def make_machine(gen: int, stats: Stats):
             self._do(["advance", dt])
             self._do(fault)
             self._do(["advance", dt2])
+
+        @rule(close_lat=st.sampled_from([0.25, 0.5, 1.0]),
+              first=st.one_of(st.just(["eof"]), st.integers(0, 15).map(lambda n: ["badcrc", n]), st.just(["undecodable", 0]),
+                              st.just(["ext_reset"])),
+              gap=st.sampled_from([0.0, 0.0, 0.125]), n_ext=st.integers(1, 2), lat=st.sampled_from([0.0, 0.0, 0.125]),
+              dt=st.sampled_from(DTS))
+        def overlapping_resets(self, close_lat, first, gap, n_ext, lat, dt):
+            """A reset is still waiting for the old stream to finish closing (slow close) when another reset is
+            requested from outside the read loop (what the heartbeat does); the console accepts the new connection
+            faster than the old one closes."""
+            self._do(["close_latency", close_lat])
+            self._do(["script", [["accept", lat]] * (1 + n_ext)])
+            self._do(first)
+            for _ in range(n_ext):
+                if gap:
+                    self._do(["advance", gap])
+                self._do(["ext_reset"])
+            self._do(["advance", dt])
 
         @rule()
         def raising_subscribers(self):
